@@ -261,6 +261,7 @@ fn agg_value(item: &Item, rows: &[&Row]) -> Cell {
 }
 
 pub struct Stmt {
+    pub distinct: bool,
     pub items: Vec<usize>,
     pub group_by: usize, // 0 none, 1 k, 2 (k, g), 3 upper(k), 4 g
     pub filter: usize,
@@ -283,7 +284,7 @@ fn keys_of(group_by: usize) -> Vec<&'static str> {
 
 pub fn text_of(st: &Stmt) -> String {
     let its = items();
-    format!("SELECT {} FROM t {} {} {}", st.items.iter().map(|i| its[*i].text).collect::<Vec<_>>().join(", "), FILTERS[st.filter], GROUPS[st.group_by], HAVINGS[st.having]).split_whitespace().collect::<Vec<_>>().join(" ")
+    format!("SELECT {}{} FROM t {} {} {}", if st.distinct { "DISTINCT " } else { "" }, st.items.iter().map(|i| its[*i].text).collect::<Vec<_>>().join(", "), FILTERS[st.filter], GROUPS[st.group_by], HAVINGS[st.having]).split_whitespace().collect::<Vec<_>>().join(" ")
 }
 
 /// well-formed: key items of the select list and HAVING occur in GROUP BY
@@ -401,6 +402,21 @@ fn reference(st: &Stmt, input: &[&Row]) -> Option<Vec<RefGroup>> {
         };
         out.push(RefGroup { key, cells, entryless_all_null: any_agg && all_entryless && !having_entry });
     }
+    if st.distinct {
+        // DISTINCT removes duplicate rows of the result table (first occurrence kept)
+        let mut kept: Vec<RefGroup> = Vec::new();
+        for g in out {
+            let row: Vec<RVal> = g.cells.iter().map(|c| if let Cell::Val(v) = c { v.clone() } else { RVal::Text("<open>".into()) }).collect();
+            let dup = kept.iter().any(|k| {
+                let kr: Vec<RVal> = k.cells.iter().map(|c| if let Cell::Val(v) = c { v.clone() } else { RVal::Text("<open>".into()) }).collect();
+                crate::refmodel::tuple_eq(&kr, &row)
+            });
+            if !dup {
+                kept.push(g);
+            }
+        }
+        return Some(kept);
+    }
     Some(out)
 }
 
@@ -422,7 +438,7 @@ fn judge(tables: &Tables, st: &Stmt, seq: &[u8]) -> (Vec<Failure>, bool, u64) {
     let its = items();
     let input: Vec<&Row> = seq.iter().map(|i| &al[*i as usize].1).collect();
     let text = text_of(st);
-    let case = json!({"items": st.items, "group_by": st.group_by, "filter": st.filter, "having": st.having, "seq": seq, "statement": text});
+    let case = json!({"distinct": st.distinct, "items": st.items, "group_by": st.group_by, "filter": st.filter, "having": st.having, "seq": seq, "statement": text});
     let groups = match reference(st, &input) {
         Some(g) => g,
         None => return (vec![], false, 0),
@@ -506,7 +522,7 @@ fn judge(tables: &Tables, st: &Stmt, seq: &[u8]) -> (Vec<Failure>, bool, u64) {
                             out.push(fail(
                                 format!("incremental-table-wrong:{}", kinds.join("+")),
                                 format!("`{}` fed line by line {:?}: table shown after line {} differs from the reference over that prefix", text, seq, kq + 1),
-                                json!({"items": st.items, "group_by": st.group_by, "filter": st.filter, "having": st.having, "seq": seq, "statement": text, "driver": "incremental", "k": kq + 1}),
+                                json!({"distinct": st.distinct, "items": st.items, "group_by": st.group_by, "filter": st.filter, "having": st.having, "seq": seq, "statement": text, "driver": "incremental", "k": kq + 1}),
                                 rows_json(&exp),
                                 t.to_json(),
                                 rank,
@@ -539,7 +555,7 @@ fn statements(thorough: bool) -> Vec<Stmt> {
     };
     for (g, f, h) in &clause_sets {
         for a in 0..n {
-            let s = Stmt { items: vec![a], group_by: *g, filter: *f, having: *h };
+            let s = Stmt { distinct: false, items: vec![a], group_by: *g, filter: *f, having: *h };
             if well_formed(&s) {
                 out.push(s);
             }
@@ -547,9 +563,28 @@ fn statements(thorough: bool) -> Vec<Stmt> {
                 if a == bq {
                     continue;
                 }
-                let s = Stmt { items: vec![a, bq], group_by: *g, filter: *f, having: *h };
+                let s = Stmt { distinct: false, items: vec![a, bq], group_by: *g, filter: *f, having: *h };
                 if well_formed(&s) {
                     out.push(s);
+                }
+            }
+        }
+    }
+    // DISTINCT: select lists without the key (different groups produce equal rows), with and without HAVING
+    for h in [0usize, 1, 3, 5, 6] {
+        for g in [1usize, 2, 4] {
+            for a in [3usize, 4, 7, 10, 13, 16, 23] {
+                let s = Stmt { distinct: true, items: vec![a], group_by: g, filter: 0, having: h };
+                if well_formed(&s) {
+                    out.push(s);
+                }
+                for bq in [3usize, 9, 23] {
+                    if a != bq {
+                        let s = Stmt { distinct: true, items: vec![a, bq], group_by: g, filter: 0, having: h };
+                        if well_formed(&s) {
+                            out.push(s);
+                        }
+                    }
                 }
             }
         }
@@ -564,7 +599,7 @@ fn statements(thorough: bool) -> Vec<Stmt> {
                     if a == bq || bq == c || a == c {
                         continue;
                     }
-                    let s = Stmt { items: vec![*a, *bq, *c], group_by: g, filter: 0, having: 0 };
+                    let s = Stmt { distinct: false, items: vec![*a, *bq, *c], group_by: g, filter: 0, having: 0 };
                     if well_formed(&s) {
                         out.push(s);
                     }
@@ -617,7 +652,7 @@ pub fn run(ctx: &Ctx) -> i32 {
 
 pub fn replay(case: &J) -> Vec<Failure> {
     let tables = sut::make_tables(DEF).unwrap();
-    let st = Stmt { items: case["items"].as_array().unwrap().iter().map(|x| x.as_u64().unwrap() as usize).collect(), group_by: case["group_by"].as_u64().unwrap() as usize, filter: case["filter"].as_u64().unwrap() as usize, having: case["having"].as_u64().unwrap() as usize };
+    let st = Stmt { distinct: case["distinct"].as_bool().unwrap_or(false), items: case["items"].as_array().unwrap().iter().map(|x| x.as_u64().unwrap() as usize).collect(), group_by: case["group_by"].as_u64().unwrap() as usize, filter: case["filter"].as_u64().unwrap() as usize, having: case["having"].as_u64().unwrap() as usize };
     let seq: Vec<u8> = case["seq"].as_array().unwrap().iter().map(|x| x.as_u64().unwrap() as u8).collect();
     judge(&tables, &st, &seq).0
 }
